@@ -538,7 +538,7 @@ def snapshot(env, extra_states):
 
 def prepare_dir(ctx, W):
     ddir = ctx.dir("loc")
-    fs.write_real(ddir / "parse_typed.pddl", c17.TYPED)
+    fs.write_real(ddir / "parse_typed.pddl", c17.TYPED_NUMERIC if ctx.s("cfg").draw(2) else c17.TYPED)
     fs.write_real(ddir / "parse_untyped.pddl", c17.UNTYPED)
     fs.write_real(ddir / "domain-0.pddl", c17.TYPED)
     fs.write_real(ddir / "domain-1.pddl", c17.TYPED.replace("bystander", "bystander").replace(
